@@ -4,7 +4,45 @@ CfgND == <<"n", "d">>
 CfgNX == <<"n", "x">>
 CfgNDX == <<"n", "d", "x">>
 FalseC == FALSE
-NoHist == <<now, list, zset, deadl, proc, hash, local, on, gone, heldc>>
+NoHist == <<now, list, zset, deadl, proc, hash, local, on, gone, heldc, tk, orig, ret, norder, dlv>>
+(* ---- refinement of the contract BrokerAbs (up to the recorded findings of this broker: the fetch window is scanned from its  *)
+(* newest side, the time-to-live is judged at the prefetch and in every category)                                                 *)
+U(k) == [[n |-> 0, d |-> 0, x |-> 0, p |-> 0] EXCEPT ![k] = 1]
+AbsLoc == [i \in Ids |-> [n |-> CountIn(list, i), d |-> Cardinality({z \in zset : z[1] = i}), x |-> CountIn(deadl, i),
+                          p |-> Cardinality({p \in proc : p[1] = i})]]
+AbsMeta0 == [q |-> 0, topic |-> 0, prio |-> 0, due |-> 0, exp |-> 0, dl |-> 0, ver |-> 0, dues |-> 0]
+DueOfH(h) == IF h.kind = "none" THEN 0 ELSE h.due
+AbsMeta == [i \in Ids |-> IF ~hash[i].live /\ ~hash[i].acked THEN AbsMeta0
+                          ELSE [q |-> 1, topic |-> 0, prio |-> 1, due |-> DueOfH(hash[i]), exp |-> hash[i].exp, dl |-> 0, ver |-> 1, dues |-> 0]]
+AbsSt == [i \in Ids |-> IF hash[i].live THEN "live" ELSE IF hash[i].acked THEN "acked" ELSE "new"]
+AbsCons == [c \in Consumers |-> [on |-> on[c], q |-> 1, cat |-> ConsCfg[c], topics |-> {}]]
+Abs == INSTANCE BrokerAbs WITH st <- AbsSt, loc <- AbsLoc, meta <- AbsMeta, holder <- tk, origin <- orig, deliv <- dlv, cons <- AbsCons,
+                               transit <- [i \in Ids |-> FALSE], pend <- [i \in Ids |-> AbsMeta0],
+                               Topics <- {0}, Exps <- 0..(MaxTime + 3), ConsCfgs <- {}
+Chk == Abs!AllChk \ {"fifo", "ttl"}
+AbsStepR ==
+    \/ \E t \in (now + 1)..MaxTime : Abs!Tick(t)
+    \/ \E i \in Ids, k \in {"n", "d"} : Abs!Enqueue(i, AbsMeta'[i], k)
+    \/ \E c \in Consumers : Abs!Start(c) \/ Abs!Stop(c)
+    \/ \E c \in Consumers, i \in Ids :
+          \/ Abs!Take(c, i, Chk) \/ Abs!Deliver(c, i, Chk) \/ Abs!Ack(c, i) \/ Abs!Nack(c, i)
+          \/ \E k \in {"n", "d", "x"} : Abs!Reject(c, i, k) \/ Abs!ReturnHeld(c, i, k)
+          \/ \E k \in {"n", "d"} : Abs!Requeue(c, i, AbsMeta'[i], k)
+          \* one prefetch that finds the message expired: taken and dead-lettered in one step (any category: the recorded finding)
+          \/ /\ Abs!TakeGuard(c, i, Chk) /\ Overdue(i)
+             /\ AbsLoc' = [AbsLoc EXCEPT ![i] = U("x")] /\ norder' = Rm(norder, i) /\ orig' = [orig EXCEPT ![i] = ConsCfg[c]]
+             /\ UNCHANGED <<now, AbsSt, AbsMeta, tk, dlv, ret, AbsCons>>
+    \* a reject / maintenance that finds nothing to return (the message is gone or not in flight any more)
+    \/ UNCHANGED <<now, AbsSt, AbsLoc, AbsMeta, tk, orig, dlv, ret, AbsCons, norder>>
+absvars == <<now, AbsSt, AbsLoc, AbsMeta, tk, orig, dlv, ret, AbsCons, norder>>
+Refines == [][AbsStepR]_absvars
+AbsConservation == Abs!Conservation
+AbsOneHolder == Abs!OneHolder
+AbsNorderSound == Abs!NorderSound
+AbsNeverEarly == Abs!NeverEarly
+AbsNotDroppedWhileLive == Abs!NotDroppedWhileLive
+AbsAckRemoves == Abs!AckRemoves
+
 (* behaviours for replay: the background tasks of the consumers that are listening run to quiescence before the client's next call; *)
 (* the rejects of a finish() follow it at once                                                                                         *)
 PrefetchEnabled == \E c \in Consumers : on[c] /\ Next4(c) # 0
